@@ -405,6 +405,6 @@ def items_text(secs):
   for name, items in secs:
     lines = ["[%s]" % name]
     for k, v in items:
-      lines.append("%s : %s" % (k, v))
+      lines.append(v if k is None else "%s : %s" % (k, v))      # k None: a raw line (comment)
     out.append("\n".join(lines))
   return "\n\n".join(out) + "\n"
